@@ -16,6 +16,7 @@ import (
 // fmtCase describes how payloads of one format are generated from a list of element sizes.
 type fmtCase struct {
 	name    string
+	key     string // violation key prefix (default: name); two alphabets of one format share it
 	forma   func() format.Format
 	maxList int  // 1 for single-buffer payloads
 	video   bool // all packets of one unit must carry the same timestamp
@@ -23,6 +24,24 @@ type fmtCase struct {
 	sizes func(max int) []int
 	// build makes the payload from element sizes (len(sizes) <= maxList).
 	build func(sizes []int) unit.Payload
+	// ticks (audio / data formats) is the reference duration model: the playing time, in units of the format's RTP
+	// clock, of a list of depacketized elements, as an inclusive range (lo < hi only when the exact value is not an
+	// integer). It is written from the codec specifications, not from the repository or its libraries.
+	ticks func(elems [][]byte) (lo, hi int64)
+	// tsClass, when set, names the class of a wrong timestamp inside a unit (suffix of the violation key): got is the
+	// observed advance over the first packet, elems the elements completed before the packet.
+	tsClass func(got int64, elems [][]byte) string
+	// triples, when set, is the element alphabet of the 3-element lists (default: 8 sizes picked around the thresholds).
+	triples func(max int, thorough bool) []int
+	// shape, when set, replaces the size-class shape of a list (coverage classes).
+	shape func(sizes []int, max int) string
+}
+
+func (fc *fmtCase) keyName() string {
+	if fc.key != "" {
+		return fc.key
+	}
+	return fc.name
 }
 
 func fill(b []byte, seed int) {
@@ -231,12 +250,13 @@ func formats() []*fmtCase {
 				d := dims[s[0]%len(dims)]
 				return unit.PayloadMJPEG(jpegImage(d[0], d[1], s[0], 30+5*(s[0]%12)))
 			}},
-		{name: "opus", maxList: 3, sizes: list(1, 1),
+		{name: "opus", maxList: 3, sizes: list(1, 1), ticks: opusTicks,
 			forma: func() format.Format { return &format.Opus{PayloadTyp: 96, ChannelCount: 2} },
 			build: func(s []int) unit.Payload {
 				return unit.PayloadOpus(elems(s, func(int) []byte { return []byte{0xfc} })) // CELT fullband 20 ms, one frame
 			}},
-		{name: "mpeg4audio", maxList: 3, sizes: list(1, 1),
+		opusDurCase(), // durations vary between units and inside a unit (durations.go)
+		{name: "mpeg4audio", maxList: 3, sizes: list(1, 1), ticks: perElement(1024), // AAC-LC: 1024 samples per access unit
 			forma: func() format.Format {
 				return &format.MPEG4Audio{PayloadTyp: 96, SizeLength: 13, IndexLength: 3, IndexDeltaLength: 3,
 					Config: &mpeg4audio.AudioSpecificConfig{Type: mpeg4audio.ObjectTypeAACLC, SampleRate: 48000, ChannelConfig: 2, ChannelCount: 2}}
@@ -244,14 +264,14 @@ func formats() []*fmtCase {
 			build: func(s []int) unit.Payload {
 				return unit.PayloadMPEG4Audio(elems(s, func(int) []byte { return nil }))
 			}},
-		{name: "mpeg4audiolatm", maxList: 1, sizes: list(1, 1),
+		{name: "mpeg4audiolatm", maxList: 1, sizes: list(1, 1), ticks: indivisible,
 			forma: func() format.Format {
 				return &format.MPEG4AudioLATM{PayloadTyp: 96, ProfileLevelID: 1, CPresent: true}
 			},
 			build: func(s []int) unit.Payload {
 				return unit.PayloadMPEG4AudioLATM(elems(s, func(int) []byte { return nil })[0])
 			}},
-		{name: "mpeg1audio", maxList: 3,
+		{name: "mpeg1audio", maxList: 3, ticks: mpaTicks, tsClass: mpaClass,
 			forma: func() format.Format { return &format.MPEG1Audio{} },
 			sizes: func(int) []int { return keysOf(mp3BySize) },
 			build: func(s []int) unit.Payload {
@@ -261,7 +281,7 @@ func formats() []*fmtCase {
 				}
 				return unit.PayloadMPEG1Audio(out)
 			}},
-		{name: "ac3", maxList: 3,
+		{name: "ac3", maxList: 3, ticks: perElement(1536), // A/52: 6 blocks of 256 samples per syncframe
 			forma: func() format.Format { return &format.AC3{PayloadTyp: 96, SampleRate: 48000, ChannelCount: 2} },
 			sizes: func(int) []int { return keysOf(ac3BySize) },
 			build: func(s []int) unit.Payload {
@@ -271,16 +291,16 @@ func formats() []*fmtCase {
 				}
 				return unit.PayloadAC3(out)
 			}},
-		{name: "g711", maxList: 1, sizes: list(1, 1),
+		{name: "g711", maxList: 1, sizes: list(1, 1), ticks: perBytes(1),
 			forma: func() format.Format { return &format.G711{PayloadTyp: 0, MULaw: true, SampleRate: 8000, ChannelCount: 1} },
 			build: func(s []int) unit.Payload { return unit.PayloadG711(elems(s, func(int) []byte { return nil })[0]) }},
-		{name: "g711-stereo", maxList: 1, sizes: list(2, 2),
+		{name: "g711-stereo", maxList: 1, sizes: list(2, 2), ticks: perBytes(2),
 			forma: func() format.Format { return &format.G711{PayloadTyp: 96, MULaw: false, SampleRate: 16000, ChannelCount: 2} },
 			build: func(s []int) unit.Payload { return unit.PayloadG711(elems(s, func(int) []byte { return nil })[0]) }},
-		{name: "lpcm", maxList: 1, sizes: list(4, 4),
+		{name: "lpcm", maxList: 1, sizes: list(4, 4), ticks: perBytes(4),
 			forma: func() format.Format { return &format.LPCM{PayloadTyp: 96, BitDepth: 16, SampleRate: 48000, ChannelCount: 2} },
 			build: func(s []int) unit.Payload { return unit.PayloadLPCM(elems(s, func(int) []byte { return nil })[0]) }},
-		{name: "lpcm24-5.1", maxList: 1, sizes: list(18, 18),
+		{name: "lpcm24-5.1", maxList: 1, sizes: list(18, 18), ticks: perBytes(18),
 			forma: func() format.Format { return &format.LPCM{PayloadTyp: 96, BitDepth: 24, SampleRate: 48000, ChannelCount: 6} },
 			build: func(s []int) unit.Payload { return unit.PayloadLPCM(elems(s, func(int) []byte { return nil })[0]) }},
 		{name: "flac", maxList: 1, sizes: list(1, 1), // empty encoder: no packets are generated
@@ -292,7 +312,7 @@ func formats() []*fmtCase {
 				return f
 			},
 			build: func(s []int) unit.Payload { return unit.PayloadFLAC(elems(s, func(int) []byte { return nil })[0]) }},
-		{name: "klv", maxList: 1, sizes: list(18, 1),
+		{name: "klv", maxList: 1, sizes: list(18, 1), ticks: indivisible,
 			forma: func() format.Format { return &format.KLV{PayloadTyp: 96} },
 			build: func(s []int) unit.Payload { return unit.PayloadKLV(klvUnit(s[0])) }},
 	}
